@@ -1,0 +1,79 @@
+//go:build verif
+
+package redisemu
+
+// C09: MULTI/EXEC state machine on the real handlers. The transaction state is
+// the connection's own fields: cmdQueue (nil = normal mode), cmdQueueFailed,
+// watches.
+
+// number of handler dispatches performed so far by the command being verified
+//@ ghost dispatched int
+
+//@ pred ctxOK(ctx *cmdContext) = ctx != nil && ctx.cs != nil && ctx.dsc != nil && ctx.dsc.ds != nil && ctx.cd != nil && ctx.dsc.ds.data != nil && ctx.dsc.ds.waitingClients != nil && !ctx.dsc.ds.data.scratch
+
+//@ func clientState.setMultiInProgress
+//@ trusted sets one flag under cs.mu
+//@ requires cs != nil
+//@ modifies clientState.multiInProgress
+
+//@ func isAbortedExecUnlocked
+//@ trusted walks the watch table and compares versions (C10); reads only
+//@ pure
+//@ requires cs != nil
+//@ requires [C09] exclusive: held
+
+//@ func nativeArrayToResp
+//@ trusted value constructor
+//@ pure
+
+//@ func cmdDispatcher.dispatchHandler
+//@ prop C09
+//@ ghostentry dispatched = dispatched + 1
+//@ requires r1: cd != nil
+//@ requires r2: cd.dss != nil
+//@ requires r3: ctx != nil
+//@ requires r4: ctx.cs != nil
+//@ requires r5: ctx.args != nil
+//@ modifies *
+//@ ensures counted: dispatched == old(dispatched)+1
+//@ ensures lockstate: held == old(held)
+//@ ensures free txnstate: ctx.cs.cmdQueueFailed == old(ctx.cs.cmdQueueFailed)
+//@ note the free clause assumes that command handlers never assign clientState.cmdQueueFailed (only prepare, fnExec and fnDiscard do; queued commands exclude those)
+
+//@ func fnMulti
+//@ prop C09
+//@ requires ctxOK(ctx)
+//@ modifies clientState.cmdQueue alloc cell
+//@ ensures start: old(ctx.cs.cmdQueue) == nil ==> ctx.cs.cmdQueue != nil && len(*ctx.cs.cmdQueue) == 0 && output.data == rstrOK
+//@ ensures nested: old(ctx.cs.cmdQueue) != nil ==> ctx.cs.cmdQueue == old(ctx.cs.cmdQueue) && istype(output.data, respErrorString)
+
+//@ func fnDiscard
+//@ prop C09
+//@ requires ctxOK(ctx)
+//@ modifies clientState.cmdQueue clientState.watches clientState.cmdQueueFailed alloc map
+//@ ensures nomulti: old(ctx.cs.cmdQueue) == nil ==> istype(output.data, respErrorString) && ctx.cs.cmdQueue == nil && ctx.cs.watches == old(ctx.cs.watches) && ctx.cs.cmdQueueFailed == old(ctx.cs.cmdQueueFailed)
+//@ ensures reset.queue: old(ctx.cs.cmdQueue) != nil ==> ctx.cs.cmdQueue == nil
+//@ ensures reset.watches: old(ctx.cs.cmdQueue) != nil ==> emptymap(ctx.cs.watches)
+//@ ensures reset.failed: old(ctx.cs.cmdQueue) != nil ==> !ctx.cs.cmdQueueFailed && output.data == rstrOK
+
+//@ func fnUnwatch
+//@ prop C09
+//@ requires ctxOK(ctx)
+//@ modifies clientState.watches alloc map
+//@ ensures cleared: emptymap(ctx.cs.watches) && ctx.cs.cmdQueue == old(ctx.cs.cmdQueue)
+
+//@ func fnExec
+//@ prop C09
+//@ requires ctxOK(ctx)
+//@ requires [C09] unlocked: !held
+//@ requires ctx.cd.dss != nil
+//@ requires qwf: ctx.cs.cmdQueue != nil ==> all(j, 0, len(*ctx.cs.cmdQueue), (*ctx.cs.cmdQueue)[j] != nil && (*ctx.cs.cmdQueue)[j].dsc != nil && (*ctx.cs.cmdQueue)[j].cs == ctx.cs && (*ctx.cs.cmdQueue)[j].args != nil)
+//@ modifies *
+//@ ensures nomulti: old(ctx.cs.cmdQueue) == nil ==> istype(output.data, respErrorString) && ctx.cs.cmdQueue == nil && dispatched == old(dispatched)
+//@ ensures reset.queue: old(ctx.cs.cmdQueue) != nil ==> ctx.cs.cmdQueue == nil
+//@ ensures reset.watches: old(ctx.cs.cmdQueue) != nil ==> emptymap(ctx.cs.watches)
+//@ ensures reset.failed: old(ctx.cs.cmdQueue) != nil ==> !ctx.cs.cmdQueueFailed
+//@ ensures failed: old(ctx.cs.cmdQueue) != nil && old(ctx.cs.cmdQueueFailed) ==> dispatched == old(dispatched) && istype(output.data, respErrorString)
+//@ ensures released: !held
+//@ ensures all: output.data != nil && !istype(output.data, respErrorString) ==> dispatched == old(dispatched) + old(len(*ctx.cs.cmdQueue))
+//@ loop 1 invariant held && dispatched == old(dispatched) + ri1 && len(results) == ri1 && ctx.cs != nil && !ctx.cs.cmdQueueFailed
